@@ -110,9 +110,23 @@ def conformance(a, L):
     return total
 
 
+_API = None
+
+
+def api_available():
+    global _API
+    if _API is None:
+        _API = check_api()
+    return _API
+
+
 def claimant(sec, line, order=None):
-    """Mirror of the dispatcher on the public line parsers: (kind, datum | ('raises', cls) | None)."""
+    """Mirror of the dispatcher on the public line parsers: (kind, datum | ('raises', cls) | None).
+    Without the documented line-parser classmethods: ("<no-api>", None) - callers then rely on the
+    end-to-end replay alone."""
     P = impl.P
+    if not api_available():
+        return "<no-api>", None
     for kind, cls in order or kind_classes(sec):
         try:
             d = cls.ParsedData.from_chart_line(line)
